@@ -167,6 +167,44 @@ def run(prog, run):
         else:
             run.ok(r3, hs.loc(i), '%s under Set, in items loop, %s edge' % (h, 'Remove' if rem else 'non-Remove'))
 
+    # every pushed item is applied: no path through the body of the items loop avoids both the remove and the store
+    run.instance(r3)
+    head = None
+    for b in hs.blocks.values():
+        t = b.get('term')
+        if t and t.get('k') == 'rangefor' and 'QXmppRosterIq::items' in hs.fmt(t['range']) and b['succs'][0] is not None \
+                and any(hs.pos(i) and ('b', b['succs'][0]) in hs.dom().get(('b', hs.pos(i)[0]), set()) for i, _ in hs_writes):
+            head = b
+    if head is None:
+        run.violation(r3, 'handleStanza#push-apply#loop', hs.loc(), 'the loop that applies the pushed items was not found')
+    else:
+        apply_blocks = {hs.pos(i)[0] for i, _ in hs_writes if hs.pos(i)}
+        entry = head['succs'][0]
+        dom = hs.dom()
+        body = {x for x in hs.blocks if ('b', entry) in dom.get(('b', x), set())}
+        seen, stack, witness = set(), [(entry, [entry])], None
+        while stack and witness is None:
+            x, path = stack.pop()
+            if x in seen or x in apply_blocks:
+                continue
+            seen.add(x)
+            for sx in hs.blocks[x]['succs']:
+                if sx is None:
+                    continue
+                if sx == head['id']:
+                    witness = path
+                    break
+                if sx in body:
+                    stack.append((sx, path + [sx]))
+        if witness is None:
+            run.ok(r3, hs.loc(head['term']['range']), 'every iteration of the items loop removes or stores the pushed item')
+        else:
+            last = hs.blocks[witness[-1]]
+            site = last['elems'][-1] if last['elems'] else head['term']['range']
+            run.violation(r3, 'handleStanza#push-apply#skipped', hs.loc(site),
+                          'there is a path through the body of the items loop on which the pushed item is neither removed from nor stored in the cache (a push that is judged '
+                          '"unchanged" or otherwise skipped): the view is no longer the last full roster plus every push')
+
     # ---- R4 session boundary
     r4 = run.rule('C12.R4', 'a session that is not a resumption starts from an empty cache; clear() empties both maps and the flag; '
                             'a non-resumable disconnect clears', floor=6)
